@@ -58,6 +58,17 @@ Proof.
   - cbn [readable_]. now apply IH.
   - destruct i; [apply Hf; now left|]. cbn [readable_]. destruct sk; rewrite IH; auto; intros; apply Hf; now right.
 Qed.
+Lemma subst_main_readable f evs : (forall s, In s (texts evs) -> neutral_on f s) ->
+  forall ad i sk, readable_ sk (subst_main_ ad i f evs) = readable_ sk evs.
+Proof.
+  induction evs as [|e evs IH]; intros Hf ad i sk; [reflexivity|].
+  destruct e as [k a| |s]; cbn [subst_main_ texts] in *.
+  - cbn [readable_]. destruct sk; [|now apply IH]. destruct (hidden k); [now apply IH|]. destruct k; rewrite IH; auto.
+  - cbn [readable_]. now apply IH.
+  - assert (G : forall ad' j, readable_ sk (Txt s :: subst_main_ ad' j f evs) = readable_ sk (Txt s :: evs)).
+    { intros ad' j. cbn [readable_]. destruct sk; rewrite IH; auto; intros; apply Hf; now right. }
+    destruct ad; [|apply G]. destruct i; [apply Hf; now left|apply G].
+Qed.
 Fixpoint all_neutral (fs : list (str -> list ev)) (ts : list str) : Prop :=
   match fs, ts with f :: fr, s :: tr => neutral_on f s /\ all_neutral fr tr | _, _ => True end.
 Lemma subst_each_readable evs : forall fs, all_neutral fs (texts evs) ->
@@ -86,6 +97,17 @@ Proof.
   - destruct i.
     + rewrite raw_app, Hf by now left. reflexivity.
     + change (s ++ raw (subst_nth i f evs) = s ++ raw evs). f_equal. apply IH. intros; apply Hf; now right.
+Qed.
+
+Lemma subst_main_raw f evs : (forall s, In s (texts evs) -> raw (f s) = s) -> forall ad i, raw (subst_main_ ad i f evs) = raw evs.
+Proof.
+  induction evs as [|e evs IH]; intros Hf ad i; [reflexivity|].
+  destruct e as [k a| |s]; cbn [subst_main_ texts] in *.
+  - change (raw (subst_main_ (ad_open ad k) i f evs) = raw evs). now apply IH.
+  - change (raw (subst_main_ (pred ad) i f evs) = raw evs). now apply IH.
+  - assert (G : forall ad' j, raw (Txt s :: subst_main_ ad' j f evs) = raw (Txt s :: evs)).
+    { intros ad' j. change (s ++ raw (subst_main_ ad' j f evs) = s ++ raw evs). f_equal. apply IH. intros; apply Hf; now right. }
+    destruct ad; [|apply G]. destruct i; [|apply G]. rewrite raw_app, Hf by now left. reflexivity.
 Qed.
 
 (* ---------------------------------------------------------------- content of Span(match) / Link(text=match) *)
